@@ -289,7 +289,7 @@ func TestC07ConcurrentMarks(t *testing.T) {
 	for rep := 0; rep < kit.N(3, 12); rep++ {
 		helpers := int(kit.Pick(r, 2, 2, 3, 4))
 		how := r.Intn(3)
-		iters := kit.N(12000, 60000)
+		iters := kit.N(6000, 60000)
 		stats := &progress.Stats{}
 		sc := &scenarios.Scenario{Name: "c07conc", ScenarioFn: func(*f1testing.T) f1testing.RunFn {
 			return func(t *f1testing.T) {
